@@ -43,6 +43,7 @@ func c11simple(r *rand.Rand, forms glyfref.Forms) (*glyfref.Simple, []byte) {
 		nc = 1 + r.IntN(12)
 	}
 	var x, y int16
+	coincident := false
 	for i := 0; i < nc; i++ {
 		np := 1 + r.IntN(8)
 		switch r.IntN(12) {
@@ -55,6 +56,16 @@ func c11simple(r *rand.Rand, forms glyfref.Forms) (*glyfref.Simple, []byte) {
 		mode := r.IntN(5)
 		if r.IntN(8) == 0 {
 			mode = 5
+		}
+		if r.IntN(10) == 0 {
+			coincident = true
+			// coincident points (zero deltas, identical flags): in the compact
+			// encoding a run of up to 256 of them takes two bytes, so that the
+			// glyph has more points than bytes
+			mode = 6
+			if r.IntN(2) == 0 {
+				np = 2 + r.IntN(30)
+			}
 		}
 		for j := range c {
 			var dx, dy int16
@@ -108,6 +119,8 @@ func c11simple(r *rand.Rand, forms glyfref.Forms) (*glyfref.Simple, []byte) {
 				} else {
 					dy = int16(r.IntN(600) - 300)
 				}
+			case 6:
+				dx, dy = 0, 0
 			default:
 				dx, dy = int16(r.IntN(9)-4), int16(r.IntN(9)-4)
 			}
@@ -127,7 +140,7 @@ func c11simple(r *rand.Rand, forms glyfref.Forms) (*glyfref.Simple, []byte) {
 			}
 			x, y = int16(nx), int16(ny)
 			on := r.IntN(3) != 0
-			if mode == 0 {
+			if mode == 0 || mode == 6 {
 				on = true
 			}
 			c[j] = glyfref.Point{X: x, Y: y, OnCurve: on}
@@ -147,12 +160,24 @@ func c11simple(r *rand.Rand, forms glyfref.Forms) (*glyfref.Simple, []byte) {
 	for i := range g.Instructions {
 		g.Instructions[i] = byte(r.Uint32())
 	}
-	if r.IntN(8) == 0 {
+	var body []byte
+	if r.IntN(8) == 0 || (coincident && r.IntN(2) == 0) {
 		// the most compact encoding: identical flags are run-length coded
 		// with the longest possible runs (repeat count 255 for 256 points)
-		return g, glyfref.Encode(g, nil, forms)
+		body = glyfref.Encode(g, nil, forms)
+	} else {
+		body = glyfref.Encode(g, r, forms)
 	}
-	return g, glyfref.Encode(g, r, forms)
+	if forms != nil {
+		np := 0
+		for _, c := range g.Contours {
+			np += len(c)
+		}
+		if np > len(body)-2*len(g.Contours)-2-len(g.Instructions) {
+			forms["more-points-than-flag-and-coordinate-bytes"]++
+		}
+	}
+	return g, body
 }
 
 type c11glyph struct {
